@@ -103,8 +103,14 @@ func (t *c12Loop) IsOpen() bool                        { return true }
 func (t *c12Loop) Close() error                        { return nil }
 func (t *c12Loop) GetRequestSizeLimit() uint           { return t.qlimit }
 func (t *c12Loop) Oneway(ctx frugal.FContext, data []byte) error {
-	_, err := t.Request(ctx, data)
-	return err
+	if len(data) == 4 {
+		return nil
+	}
+	if t.qlimit > 0 && uint(len(data)) > t.qlimit {
+		return thrift.NewTTransportException(frugal.TRANSPORT_EXCEPTION_REQUEST_TOO_LARGE, "Message exceeds limit")
+	}
+	t.sent = append([]byte{}, data...)
+	return nil
 }
 func (t *c12Loop) Request(ctx frugal.FContext, data []byte) (thrift.TTransport, error) {
 	if len(data) == 4 {
@@ -175,12 +181,16 @@ type c12CallOut struct {
 	sent      bool
 	sentBytes []byte
 	replyLen  int
+	follow    string // e2e: what went wrong with the follow-up normal call ("" = fine)
 	res       string
 	err       error
 }
 
 // c12RealCall performs one Call on the real client/server code.
 func c12RealCall(kind, proto string, args, result *c12Shape, reqHdr, respHdr int, qlimit, rlimit uint) (out c12CallOut, outcome string) {
+	if kind == "nats" {
+		return c12E2ECall(proto, args, result, reqHdr, respHdr)
+	}
 	pf := frugal.NewFProtocolFactory(c12ProtoFactory(proto))
 	srv := &c12Server{result: result, rlimit: rlimit, respHdr: respHdr, pf: pf}
 	proc := frugal.NewFBaseProcessor()
@@ -297,9 +307,9 @@ func c12ParseShape(s string) *c12Shape {
 	return sh
 }
 
-// c12ReplayCall re-runs a `call` line from its generating parameters. A line whose
-// programs are not the ones the encoders produce for those parameters (a mutated
-// line) is executed but not judged.
+// c12ReplayCall re-runs a `c12call` line from its generating parameters (the programs on
+// the line are what the model is fed; header sizes may differ by a byte between runs because
+// the op id has a different number of digits).
 func c12ReplayCall(args []string) (string, bool) {
 	if len(args) != 11 {
 		return "bad-op", true
@@ -311,10 +321,17 @@ func c12ReplayCall(args []string) (string, bool) {
 	if (p.qlimit >= 1 && p.qlimit <= 3) || (p.rlimit >= 1 && p.rlimit <= 3) {
 		return "bad-op", true
 	}
-	line, real, bad, _ := c12JudgeCall(p)
-	if line != "c12call "+strings.Join(args, " ") {
-		return real, true
+	var line, real, bad string
+	judge := func() (string, bool, string) {
+		line, real, bad, _ = c12JudgeCall(p)
+		return real, bad == "", bad
 	}
+	if c12IsE2EKind(p.kind) {
+		retryTiming(judge)
+	} else {
+		judge()
+	}
+	_ = line // the run is determined by the generating parameters; the programs on the line feed the model
 	return real, bad == ""
 }
 
@@ -330,6 +347,10 @@ func c12JudgeCall(p c12CallParams) (line, real, bad string, assumed bool) {
 	}
 	line = fmt.Sprintf("c12call %s %s %s %s %d %d %s", prog(out.req), prog(out.rep), c12Segs(out.errp), p.kind, p.qlimit, p.rlimit, p.tail())
 	real = fmt.Sprintf("sent=%s res=%s", c12YN(out.sent), out.res)
+	if out.follow != "" {
+		bad = "after this call the same client and server: " + out.follow
+		return
+	}
 	Q := 4 + c12Sum(out.req)
 	if p.qlimit > 0 && uint(Q) > p.qlimit {
 		if out.sent {
@@ -452,7 +473,7 @@ const c12KnownID = "json-sticky-writer"
 
 // c12KnownClass: NATS-shaped server, JSON protocol, reply over the server-side limit.
 func c12KnownClass(p c12CallParams, replyFramed int) bool {
-	return p.kind == "loop" && p.proto == "json" && p.rlimit > 0 && uint(replyFramed) > p.rlimit
+	return (p.kind == "loop" || p.kind == "nats") && p.proto == "json" && p.rlimit > 0 && uint(replyFramed) > p.rlimit
 }
 
 // c12KnownWitness replays known/c12_json_sticky: Known(...) while it still fails.
